@@ -457,13 +457,97 @@ def ob_index_pair(w, P):
     return x.result()
 
 
+@directive_aware
+def ob_persist_kill(w, P):
+    """C07 for the persistent types: the process is killed at a symbolic event inside Deque.append / appendleft (bounded,
+    full), Deque.popleft, Index.popitem / setdefault / __setitem__: the recovered structure is the one before or the one
+    after the interrupted call, and a bounded Deque never holds more than maxlen items"""
+    from obligations.cache_ops import Outcome
+    L = w.L
+    kind = P['kind']
+    P = dict(P, crash=True)
+    if kind.startswith('deque'):
+        x, contents = deque_scn(w, P)
+        x.P = P
+        op = kind.split('.')[1]
+        bounded = op in ('append', 'appendleft')
+        maxlen = len(contents) if bounded else None
+        if bounded and maxlen == 0:
+            assume(False)
+        dq = L.persistent.Deque.fromcache(x.c, maxlen=maxlen)
+        v = x.s.v_int('val', -2 ** 40, 2 ** 40)
+        od = collections.deque(contents, maxlen)
+        before = list(od)
+        try:
+            getattr(od, op)(v) if bounded else getattr(od, op)()
+        except IndexError:
+            pass
+        after = list(od)
+
+        def action():
+            try:
+                return getattr(dq, op)(v) if bounded else getattr(dq, op)()
+            except IndexError:
+                return None
+        try:
+            x.call(action)
+        except Outcome as o:
+            rec = list(L.persistent.Deque.fromcache(w.clone_handle(x.c), maxlen=None))
+            cl = list(o.clauses)
+            cl.append(('C07,C11', 'after a kill a bounded Deque holds at most maxlen items', maxlen is None or len(rec) <= maxlen))
+            cl.append(('C07,C11', 'after a kill the Deque is the one before or the one after the interrupted call', Or(vals_eq(rec, before), vals_eq(rec, after))))
+            raise Outcome(cl)
+        return x.result()
+    x, contents = index_scn(w, P)
+    x.P = P
+    op = kind.split('.')[1]
+    ix = L.persistent.Index.fromcache(x.c)
+    k = pick_int(x, 'key', 0, P['N'] + 1)
+    v = x.s.v_int('val', -2 ** 40, 2 ** 40)
+    od = collections.OrderedDict(contents)
+    before = list(od.items())
+    try:
+        if op == 'popitem':
+            od.popitem()
+        elif op == 'setdefault':
+            od.setdefault(k, v)
+        elif op == 'setitem':
+            od[k] = v
+        elif op == 'pop':
+            od.pop(k)
+    except KeyError:
+        pass
+    after = list(od.items())
+
+    def action():
+        try:
+            if op == 'popitem':
+                return ix.popitem()
+            if op == 'setdefault':
+                return ix.setdefault(k, v)
+            if op == 'setitem':
+                return ix.__setitem__(k, v)
+            if op == 'pop':
+                return ix.pop(k)
+        except KeyError:
+            return None
+    try:
+        x.call(action)
+    except Outcome as o:
+        rec = list(L.persistent.Index.fromcache(w.clone_handle(x.c)).items())
+        cl = list(o.clauses)
+        cl.append(('C07,C12', 'after a kill the Index is the one before or the one after the interrupted call', Or(vals_eq(rec, before), vals_eq(rec, after))))
+        raise Outcome(cl)
+    return x.result()
+
+
 def pair_jobs(tier):
     out = []
     N = 2
     for a, b, bounded in [('append', 'appendleft', True), ('appendleft', 'append', True), ('append', 'append', True), ('append', 'popleft', False), ('pop', 'popleft', False),
                           ('popleft', 'popleft', False), ('append', 'pop', True)]:
         out.append(dict(id='deque.pair.%s.%s.%s' % (a, b, 'bounded' if bounded else 'unbounded'), func='ob_deque_pair', params=dict(N=N, a=a, b=b, bounded=bounded, policy='none'),
-                        tags=['C11', 'C05'], functions=DEQUE_F, weight=30, must_reach=['interleaved']))
+                        tags=['C11', 'C05', 'C10'], functions=DEQUE_F, weight=30, must_reach=['interleaved']))
     for a, b in [('popitem', 'setitem'), ('popitem', 'delitem'), ('popitem', 'popitem'), ('setdefault', 'setitem'), ('setdefault', 'delitem'), ('setitem', 'popitem'),
                  ('pop', 'setitem'), ('popitem_first', 'setitem'), ('getitem', 'setitem'), ('getitem', 'delitem')]:
         out.append(dict(id='index.pair.%s.%s' % (a, b), func='ob_index_pair', params=dict(N=N, a=a, b=b, policy='none'), tags=['C12', 'C05'], functions=INDEX_F, weight=30,
@@ -471,11 +555,19 @@ def pair_jobs(tier):
     return out
 
 
+def kill_jobs(tier):
+    out = []
+    for kind in ('deque.append', 'deque.appendleft', 'deque.popleft', 'deque.pop', 'index.popitem', 'index.setdefault', 'index.setitem', 'index.pop'):
+        out.append(dict(id='kill.%s' % kind, func='ob_persist_kill', params=dict(N=2, kind=kind, policy='none'), tags=['C07', 'C11', 'C12'], functions=DEQUE_F + INDEX_F, weight=40,
+                        must_reach=['crashed']))
+    return out
+
+
 _jobs_seq = jobs
 
 
 def jobs(tier):
-    return _jobs_seq(tier) + pair_jobs(tier)
+    return _jobs_seq(tier) + pair_jobs(tier) + kill_jobs(tier)
 
 
 @directive_aware
